@@ -813,14 +813,14 @@ fn build_deref_for_struct(
         DeriveItemKind::Deref => {
             quote! {
                 type Target = #target_ty;
-                fn deref(&self) -> & #target_ty {
+                fn deref(&self) -> &<Self as ::core::ops::Deref>::Target {
                     &self.#member
                 }
             }
         }
         DeriveItemKind::DerefMut => {
             quote! {
-                fn deref_mut(&mut self) -> &mut #target_ty {
+                fn deref_mut(&mut self) -> &mut <Self as ::core::ops::Deref>::Target {
                     &mut self.#member
                 }
             }
